@@ -37,6 +37,18 @@ theorem p_pIdx (sh : Sh) (cp : CPc) (app : SpscA.PPc) (acp : SpscA.CPc) (v tb : 
   destrP
   simp only [step, pstepC, SpscA.pstep, Option.some.injEq, touch] at hs
   subst hs
+  splitP
+  case cloc => frameC
+  fin
+
+set_option maxHeartbeats 1000000 in
+theorem p_pWr (sh : Sh) (cp : CPc) (app : SpscA.PPc) (acp : SpscA.CPc) (v tb pi : Nat) (e : Env) (s' : St)
+    (h : Inv ⟨sh, .pWr v tb pi, cp, app, acp⟩) (hs : step ⟨sh, .pWr v tb pi, cp, app, acp⟩ (.prod e) = some s') : Inv s' := by
+  obtain rfl : app = .write v := h.projp
+  destrP
+  obtain ⟨rfl, rfl⟩ := ploc
+  simp only [step, pstepC, SpscA.pstep, Option.some.injEq, touch] at hs
+  subst hs
   have al := al1 pal
   by_cases hc : (sh.tailIdx + 1) % sh.B = 0 <;> simp only [hc, ↓reduceIte]
   · splitP
